@@ -125,10 +125,41 @@ def is_valtype_macro(n):
     return None
 
 
+COUNTOF_AS_NUMBER = False     # subscript_sites.py: render sizeof(arr)/sizeof(arr[0]) as the declared length of arr
+
+
+def countof(n):
+    """HAWK_COUNTOF(arr) = sizeof(arr)/sizeof(arr[0]) with arr of a constant array type -> its length, else None"""
+    import re as _re
+    if n.get("kind") != "BinaryOperator" or n.get("opcode") != "/":
+        return None
+    a, b = [strip(x) for x in kids(n)]
+    if a.get("kind") != "UnaryExprOrTypeTraitExpr" or b.get("kind") != "UnaryExprOrTypeTraitExpr" or a.get("name") != "sizeof" or b.get("name") != "sizeof":
+        return None
+    ka, kb = kids(a), kids(b)
+    if not ka or not kb:
+        return None
+    ta = strip(ka[0]).get("type", {}).get("qualType", "")
+    m = _re.fullmatch(r"(.*\S)\s*\[(\d+)\]", ta)
+    eb = strip(kb[0])
+    if not m or eb.get("kind") != "ArraySubscriptExpr":
+        return None
+    try:
+        if unparse(kids(eb)[0]) != unparse(ka[0]) or unparse(kids(eb)[1]) != "0":
+            return None
+    except Unknown:
+        return None
+    return int(m.group(2))
+
+
 def unparse(n):
     """canonical text of an expression tree (no whitespace; implicit casts and parentheses dropped)"""
     n = strip(n)
     k = n.get("kind")
+    if COUNTOF_AS_NUMBER and k == "BinaryOperator":
+        v = countof(n)
+        if v is not None:
+            return str(v)
     s = is_valtype_macro(n) if k == "ConditionalOperator" else None
     if s is not None:
         return "VT(%s)" % unparse(s)
